@@ -501,3 +501,28 @@ def run(ctx):
             if not tested:
                 r11.fail('parser/number-literal/integer-falls-to-float', mirq.site(b, bb, sj), 'a number literal that fails the integer parse (too large for the literal representation) is handed to the float parse without asking whether it is spelled as an integer: 170141183460469231731687303715884105728 silently becomes 1.7014118346046923e38')
     r11.need(1)
+
+    # ---------------- R14.12 every integer a binary int native returns is the operator applied to both operands
+    r12 = ctx.rule('R14.12', 'every result of a binary int native is computed by the operator of that native from both operands')
+    OPS = {'add': 'add', 'sub': 'sub', 'mul': 'mul', 'mod': 'rem', 'bit_and': 'bitand', 'bit_or': 'bitor', 'bit_xor': 'bitxor',
+           'div_floor': 'div_floor', 'div_ceil': 'div_ceil', 'pow': 'pow'}
+    for b in ctx.mir.bodies:
+        m = re.match(r'builtin::int::add_int_(\w+)(::\{closure#0\})+$', b.nid)
+        if not m or m.group(1) not in OPS or b.d['argc'] != 4:
+            continue
+        want = OPS[m.group(1)]
+        for i, j, s in b.stmts():
+            if not (s['k'] == 'assign' and s['rv']['k'] == 'agg' and (s['rv'].get('adt') or '').endswith('xvalue::XValue') and s['rv'].get('v') == 'Int'):
+                continue
+            ol = op_local(s['rv']['ops'][0]) if s['rv']['ops'] else None
+            sl = mirq.backslice(b, [ol]) if ol is not None else set()
+            calls = set()
+            for l in sl:
+                for kind, dbb, idx, d in b.defs().get(l, []):
+                    if kind == 'call':
+                        calls.add(strip_generics(d.get('callee') or d.get('decl') or '').split('::')[-1])
+            ok = want in calls and {2, 3} <= sl
+            r12.inst({'native': m.group(1), 'site': mirq.site(b, i, j), 'computed_by': sorted(calls), 'from_both_operands': {2, 3} <= sl}, ok=ok, kind=(b.nid, i, j))
+            if not ok:
+                r12.fail('int/%s/result-not-from-operator' % m.group(1), mirq.site(b, i, j), 'the native `%s` returns an integer that is not %s(a, b) (computed by %s, from %s): a shortcut result is right only if it equals the operator\'s result for every pair, including operands of opposite sign and of different widths' % (m.group(1), want, sorted(calls) or 'no call', 'both operands' if {2, 3} <= sl else 'one operand'))
+    r12.need(10)
